@@ -365,3 +365,31 @@ func charSiblings(r *Rng, c CharCfg) []CharCfg {
 	}
 	return out
 }
+
+// bigAlphabet returns n consecutive CJK characters (alphabets of a few hundred characters:
+// term sizes near powers of two in the counting arithmetic).
+func bigAlphabet(r *Rng, n int) string {
+	var b strings.Builder
+	start := 0x4E00 + r.Intn(2000)
+	for i := 0; i < n; i++ {
+		b.WriteRune(rune(start + i))
+	}
+	return b.String()
+}
+
+// genLargeCharCfg: long passwords and / or big alphabets with a few small requirements.
+func genLargeCharCfg(r *Rng) CharCfg {
+	c := genCharCfg(r, charOpt{maxLen: 24, maxReq: 3, noEmptied: true})
+	c.Length = pick(r, []int{4, 8, 8, 16, 32, 64, 100, 127, 128, 129, 150, 200, 256, 300})
+	switch r.Intn(4) {
+	case 0:
+		c.AllowChars += bigAlphabet(r, pick(r, []int{200, 235, 240, 250, 255, 256, 300, 400}))
+	case 1:
+		c.Allow |= 15
+		c.Exclude = 16
+	}
+	if len(c.RequireSets) == 0 && c.Require == 0 {
+		c.RequireSets = []string{randRunes(r, asciiPool[:14], 1, 3, 0)}
+	}
+	return c
+}
